@@ -292,7 +292,9 @@ def run_case(case, ctx):
                              max_step=T / (N - 1) / 2, first_step=dt)
             err_hand = float(np.max(np.abs(hand.y.T - full))) if hand.success and hand.y.shape[1] == len(times) else 0.0
             scale_ = max(1.0, float(np.max(np.abs(exp)))) if exp.size else 1.0
-            msg = observe.compare_traj(df.values, exp, rtol=max(2e-6, (5 * err_hand + 1e-7) / scale_))
+            # (floor 2e-5: two RK45 runs whose right-hand sides differ in the last bit take different steps across the kinks and end
+            # up 1e-7 .. 1e-5 apart; a misplaced sample grid - shifted, stretched by N/(N-1), nearest sample - deviates by 1e-3 .. 1e-2)
+            msg = observe.compare_traj(df.values, exp, rtol=max(2e-5, (20 * err_hand + 1e-7) / scale_))
             if msg == 'discard':
                 res.update(status='discard', symptom='reference not finite', mech=mech)
                 return res
